@@ -63,12 +63,14 @@ def c12(ctx):
                        "and 10, every string of length <= %d over the escape alphabet %s and sampled longer ones (also over %s for surrogate "
                        "pairs), and structured patterns built from the fragment's constructs (braced quantifiers with bounds up to 2^63-1, "
                        "Annex B literals { } ], \\c \\x \\u \\0 escapes with and without their operands, code point escapes, astral "
-                       "characters), each in the modes in which it satisfies in_fragment: the extracted recogniser "
+                       "characters), strings over %s and structured patterns with decimal escapes next to capturing and other groups, "
+                       "each in the modes in which it satisfies in_fragment: the extracted recogniser "
                        "(FragParser.recognises, proved equivalent to the inductive predicate Pattern u of Regex/Grammar.v: "
                        "C12_recogniser_decides_grammar) accepts iff `new RegExp` does not throw; patterns whose bounds V8 clamps to 2^31-1 "
                        "are excluded (%d); non-trivial := accepted string"
                        % ("".join(R.FRAGMENT_ALPHABET), 6 if ctx.tier == "thorough" else 5, "".join(R.BRACE_ALPHABET),
-                          5 if ctx.tier == "thorough" else 4, "".join(R.ESCAPE_ALPHABET), "".join(R.SURROGATE_ALPHABET), gs.get("v8_clamp_excluded", 0)),
+                          5 if ctx.tier == "thorough" else 4, "".join(R.ESCAPE_ALPHABET), "".join(R.SURROGATE_ALPHABET),
+                          "".join(R.BACKREF_ALPHABET), gs.get("v8_clamp_excluded", 0)),
                        distribution={"grammar_vs_v8": gs})
     ctx.obligation("extracted model started from a deliberately dirty validator state decides like a fresh one (%d cases)" % cnt["dirty_cases"],
                    not r["dirty"], json.dumps(r["dirty"][:3], ensure_ascii=False))
